@@ -43,8 +43,8 @@ func streamCfgs(thorough bool) []streamCfg {
 	for _, path := range []string{"keyset", "subtle"} {
 		for _, dks := range []int{16, 32} {
 			for _, ks := range []int{dks, 32, 48} {
-				if ks < dks || (ks == 48 && !thorough) {
-					continue
+				if ks < dks || (ks == 48 && (!thorough || path == "keyset")) {
+					continue // main keys of other sizes than 16/32 exist only behind the subtle constructors
 				}
 				for _, hh := range hk {
 					for _, seg := range []int{dks + 40, 4096} {
